@@ -98,7 +98,11 @@ def build_file_response(path,
     if not mimetype:
         mimetype, encoding = mimetypes.guess_type(path)
     if not mimetype:
-        peeked = peek_file(file_obj, 1024)
+        try:
+            peeked = peek_file(file_obj, 1024)
+        except (ValueError, IOError, OSError):
+            file_obj.close()
+            raise Forbidden(is_breaking=False)
         is_binary = is_binary_string(peeked)
         if peeked and is_binary:
             mimetype = default_binary_mime
